@@ -77,28 +77,31 @@ def linkerRowOK (sims : List Rat) (k : Nat) (thr eps : Rat) (kept : List (Nat ×
 
 /-! ### NNClassifier rows -/
 
-/-- the `k`-th smallest value (1-based) of a list, by insertion sort -/
-def insertRat (x : Rat) : List Rat → List Rat
-  | [] => [x]
-  | y :: ys => if x ≤ y then x :: y :: ys else y :: insertRat x ys
+/-- number of labelled nodes at distance at most `v` -/
+def cntLe (ds : List Rat) (v : Rat) : Nat :=
+  ((List.range ds.length).filter fun j => decide (ds.getD j 0 ≤ v)).length
 
-def sortRat (l : List Rat) : List Rat := l.foldr insertRat []
+/-- the `k`-th smallest distance: the least distance `v` with at least `k` labelled nodes at distance `≤ v` -/
+def kthSmallest (ds : List Rat) (k : Nat) : Rat :=
+  let cand := ds.filter fun v => decide (k ≤ cntLe ds v)
+  cand.foldl min (cand.headD 0)
 
-/-- a probability row of a test node is explained by *some* choice of `k` nearest labelled nodes:
-    with `τ` the `k`-th smallest distance, the count of label `q` lies between the number of labelled nodes of
-    label `q` strictly closer than `τ` and that number plus those at distance `τ` (within `eps`). -/
-def knnRowOK (ds : List Rat) (trainLabels : List Int) (k : Nat) (eps : Rat) (row : List Rat) : Bool :=
+/-- a probability row of a test node is explained by *some* choice of `k` nearest labelled nodes: `counts` (the
+    row times `k`, rounded by the harness) are natural numbers summing to `k`, and with `τ` the `k`-th smallest
+    distance the count of label `q` lies between the number of labelled nodes of label `q` strictly closer than
+    `τ` and that number plus those at distance `τ` (within `eps`). -/
+def knnRowOK (ds : List Rat) (trainLabels : List Int) (k : Nat) (eps : Rat) (row : List Rat) (counts : List Nat) :
+    Bool :=
   if k == 0 then row.all (· == 0) else
-  let tau := (sortRat ds).getD (k - 1) 0
-  let counts : List Int := row.map fun x => (x * (k : Rat) + 1/2).floor
-  let pairs := ds.zip trainLabels
-  (List.range row.length).all (fun q =>
+  let tau := kthSmallest ds k
+  counts.length == row.length && counts.sum == k &&
+  (List.range row.length).all fun q =>
     let cq := counts.getD q 0
-    let mand := (pairs.filter fun e => decide (e.1 < tau - eps) && e.2 == (q : Int)).length
-    let opt := (pairs.filter fun e => decide (rabs (e.1 - tau) ≤ eps) && e.2 == (q : Int)).length
-    decide (rabs (row.getD q 0 * (k : Rat) - (cq : Rat)) ≤ eps) &&
-    decide ((mand : Int) ≤ cq) && decide (cq ≤ (mand : Int) + (opt : Int))) &&
-  counts.foldr (· + ·) 0 == (k : Int)
+    let mand := ((List.range ds.length).filter fun j =>
+      decide (ds.getD j 0 < tau - eps) && trainLabels.getD j (-1) == (q : Int)).length
+    let opt := ((List.range ds.length).filter fun j =>
+      decide (rabs (ds.getD j 0 - tau) ≤ eps) && trainLabels.getD j (-1) == (q : Int)).length
+    decide (rabs (row.getD q 0 * (k : Rat) - (cq : Rat)) ≤ eps) && decide (mand ≤ cq) && decide (cq ≤ mand + opt)
 
 /-! ### metrics from the confusion matrix -/
 
